@@ -172,6 +172,10 @@ def run_case(ck, desc):
         need = {"pressure", "pseudopressure"}
         u = desc["u"]
         p_f = float(p[0] + u[2] * 0.8 * (p_i - p[0])) if where != "outside" else float(p[len(p) // 3])
+        if u[4] < 0.25 and where != "outside" and p_i < p[-1]:
+            # frac face ABOVE the initial pressure (injection / build-up): still 0 at p_f, 1 at p_i
+            p_f = float(p_i + (0.1 + 0.8 * u[2]) * (p[-1] - p_i))
+            ck.count("rescale_with_frac_face_above_initial")
         try:
             out = fp.rescale_pseudopressure(tab, p_f, p_i)
         except Exception as e:  # noqa: BLE001
@@ -192,8 +196,8 @@ def run_case(ck, desc):
             ck.violation("rescale: p_f -> 0", {"value": at_f, "p_f": p_f}, desc)
         if not ck.margin("rescale: p_i -> 1", abs(at_i - 1), 1e-12):
             ck.violation("rescale: p_i -> 1", {"value": at_i, "p_i": p_i}, desc)
-        if np.any(np.diff(pp) <= 0):
-            ck.violation("rescale: increasing", {"min_step": float(np.min(np.diff(pp)))}, desc)
+        if np.any(np.diff(pp) * np.sign(p_i - p_f) <= 0):
+            ck.violation("rescale: monotone", {"min_step": float(np.min(np.diff(pp) * np.sign(p_i - p_f)))}, desc)
         if out is tab:
             ck.violation("rescale-returns-new-table", {}, desc)
         return n_rows >= 2, {"p_f": p_f, "p_i": p_i, "at_f": at_f, "at_i": at_i}
